@@ -1,0 +1,117 @@
+//! Verification hook for the cache layer (C02 / C08; only compiled with `--cfg redb_verif`): drives the
+//! real `PagedCachedFile` (read cache + striped write buffer + `CheckedBackend`) over a caller-supplied
+//! `StorageBackend` and exposes its bookkeeping read-only. Every function delegates to the real code;
+//! nothing here changes behaviour of the crate.
+
+use crate::tree_store::page_store::base::PageHint;
+use crate::tree_store::page_store::cached_file::{PagedCachedFile, WritablePage};
+use crate::{StorageBackend, StorageError};
+use alloc::boxed::Box;
+use alloc::format;
+use alloc::string::String;
+use alloc::sync::Arc;
+use alloc::vec::Vec;
+
+/// Read-only picture of a `PagedCachedFile`; all lists are sorted by offset
+#[derive(Clone, Debug, Default, PartialEq, Eq)]
+pub struct VCacheState {
+    /// (offset, length) of every read cache entry
+    pub read_cache: Vec<(u64, usize)>,
+    /// (offset, Some(length)) of every write buffer entry; None = taken by a live `VWritablePage`
+    pub write_buffer: Vec<(u64, Option<usize>)>,
+    pub read_cache_bytes: usize,
+    pub write_buffer_bytes: usize,
+    pub committed_pages_buffered: bool,
+    pub next_eviction_stripe: usize,
+    pub max_cache_size: usize,
+    pub io_failed: bool,
+    pub closed: bool,
+    /// stripes whose lock was held by another thread when the picture was taken (their entries are missing)
+    pub locked_stripes: Vec<usize>,
+}
+
+pub struct VCachedFile(PagedCachedFile);
+
+/// A live `WritablePage`; dropping it returns the page to the write buffer
+pub struct VWritablePage(WritablePage);
+
+impl VWritablePage {
+    pub fn mem(&self) -> &[u8] {
+        self.0.mem()
+    }
+    pub fn mem_mut(&mut self) -> &mut [u8] {
+        self.0.mem_mut()
+    }
+}
+
+impl VCachedFile {
+    /// `PagedCachedFile::new(backend, page_size, max_cache_size)`
+    pub fn new(
+        backend: Box<dyn StorageBackend>,
+        page_size: u64,
+        max_cache_size: usize,
+    ) -> Result<Self, String> {
+        PagedCachedFile::new(backend, page_size, max_cache_size)
+            .map(Self)
+            .map_err(|e| format!("{e}"))
+    }
+    pub const fn lock_stripes() -> u64 {
+        131
+    }
+    /// `read(offset, len, hint)`; `clean` = `PageHint::Clean`, otherwise `PageHint::None`
+    pub fn read(&self, offset: u64, len: usize, clean: bool) -> Result<Arc<[u8]>, StorageError> {
+        let hint = if clean {
+            PageHint::Clean
+        } else {
+            PageHint::None
+        };
+        self.0.read(offset, len, hint)
+    }
+    pub fn read_direct(&self, offset: u64, len: usize) -> Result<Vec<u8>, StorageError> {
+        self.0.read_direct(offset, len)
+    }
+    pub fn write(
+        &self,
+        offset: u64,
+        len: usize,
+        overwrite: bool,
+    ) -> Result<VWritablePage, StorageError> {
+        self.0.write(offset, len, overwrite).map(VWritablePage)
+    }
+    pub fn flush(&self) -> Result<(), StorageError> {
+        self.0.flush()
+    }
+    pub fn sync_file(&self) -> Result<(), StorageError> {
+        self.0.sync_file()
+    }
+    pub fn write_barrier(&self) {
+        self.0.write_barrier();
+    }
+    pub fn discard_write_buffer(&self) {
+        self.0.discard_write_buffer();
+    }
+    pub fn invalidate_cache(&self, offset: u64, len: usize) {
+        self.0.invalidate_cache(offset, len);
+    }
+    pub fn invalidate_cache_all(&self) {
+        self.0.invalidate_cache_all();
+    }
+    pub fn cancel_pending_write(&self, offset: u64, len: usize) {
+        self.0.cancel_pending_write(offset, len);
+    }
+    pub fn resize(&self, len: u64) -> Result<(), StorageError> {
+        self.0.resize(len)
+    }
+    pub fn raw_file_len(&self) -> Result<u64, StorageError> {
+        self.0.raw_file_len()
+    }
+    pub fn check_io_errors(&self) -> Result<(), StorageError> {
+        self.0.check_io_errors()
+    }
+    pub fn close(&self) -> Result<(), StorageError> {
+        self.0.close()
+    }
+    pub fn state(&self) -> VCacheState {
+        self.0.verif_state()
+    }
+}
